@@ -27,6 +27,7 @@ type C12Op struct {
 	Leader int      `json:"leader,omitempty"`
 	F      int      `json:"f,omitempty"` // follower index
 	US     int      `json:"us,omitempty"`
+	Table  string   `json:"table,omitempty"` // flush: only this table ("" = all tables)
 }
 
 type C12Case struct {
@@ -34,6 +35,10 @@ type C12Case struct {
 	Conf    h.ClusterConf `json:"conf"`
 	Ops     []C12Op       `json:"ops"`
 	Queries []*h.Query    `json:"queries"`
+	// NoTimer pins MinFlushLatency to 1h: after a forced flush zenodb re-arms a
+	// table's flush timer to ten times the flush duration, which otherwise
+	// flushes the other tables a few ms later and equalises their offsets
+	NoTimer bool `json:"no_timer,omitempty"`
 }
 
 func genC12(t *rapid.T, excluded *int) C12Case {
@@ -41,6 +46,12 @@ func genC12(t *rapid.T, excluded *int) C12Case {
 	c := C12Case{}
 	c.Data.Schema = genClusterSchema(t, cfg, excluded)
 	c.Conf = h.ClusterConf{Partitions: rapid.IntRange(2, 3).Draw(t, "partitions"), Leaders: rapid.IntRange(1, 2).Draw(t, "leaders"), FollowersPer: rapid.IntRange(1, 2).Draw(t, "followers")}
+	c.NoTimer = rapid.IntRange(0, 2).Draw(t, "notimer") > 0
+	if c.NoTimer {
+		for i := range c.Data.Schema.Tables {
+			c.Data.Schema.Tables[i].MinFlushNS = int64(3600e9)
+		}
+	}
 	nf := c.Conf.Partitions * c.Conf.FollowersPer
 	maxFaults := 6
 	maxOps := 40
@@ -64,7 +75,11 @@ func genC12(t *rapid.T, excluded *int) C12Case {
 			c.Ops = append(c.Ops, C12Op{K: "barrier"})
 		case k == 11:
 			if !down[f] {
-				c.Ops = append(c.Ops, C12Op{K: "flush", F: f})
+				op := C12Op{K: "flush", F: f}
+				if rapid.Bool().Draw(t, label+".onetable") {
+					op.Table = c.Data.Schema.Tables[rapid.IntRange(0, len(c.Data.Schema.Tables)-1).Draw(t, label+".tbl")].Name
+				}
+				c.Ops = append(c.Ops, op)
 			}
 		case k == 12:
 			if down[f] {
@@ -213,7 +228,12 @@ func runC12(c *C12Case) ([]string, error) {
 			}
 		case "flush":
 			if f.Up() {
-				f.Z.FlushAll()
+				if op.Table != "" {
+					f.Z.VerifFlushTable(op.Table)
+					labels["follower-flush-one-table"] = true
+				} else {
+					f.Z.FlushAll()
+				}
 				labels["follower-flush"] = true
 			}
 		case "stop":
